@@ -105,8 +105,8 @@ Proof.
   vm_compute in Ep. inversion Ep; subst ss. vm_compute in Ei. inversion Ei; subst st0. clear Ep Ei.
   eexists. eexists. eexists. split; [reflexivity|]. split; [reflexivity|]. split; [reflexivity|].
   split.
-  { constructor; [exists 6; vm_compute; reflexivity|].
-    constructor; [exists 6; vm_compute; reflexivity|]. constructor. }
+  { constructor; [apply (total_P fixed ex_schema 40 6); vm_compute; reflexivity|].
+    constructor; [apply (total_P fixed ex_schema 40 6); vm_compute; reflexivity|]. constructor. }
   split; [reflexivity|]. split; [|split; reflexivity].
   vm_compute. repeat (constructor; [simpl; intuition discriminate|]). constructor.
 Qed.
